@@ -253,6 +253,10 @@ func randSeq(c *ctx, live []uint64, maxDoc uint64, length int) []uint64 {
 		if t == 0 {
 			t = 1
 		}
+		if c.R.Chance(16) {
+			// a target no document number can reach (document numbers are 32-bit quantities)
+			t = []uint64{1 << 32, 1<<32 + 1, 1<<32 + uint64(maxDoc), 1 << 40, 1<<63 + 5}[c.R.Intn(5)]
+		}
 		ops = append(ops, t)
 		for pos < len(live) && live[pos] < t {
 			pos++
